@@ -130,8 +130,27 @@ def driver_main(prop, main, replay=None):
         sys.exit(1 if (rep.violations or ok is False) else 0)
     try:
         main(rep)
-    except Exception:
-        rep.error('driver crashed: ' + traceback.format_exc())
+    except Exception as e:
+        # An exception that comes out of sc3 code while the driver sets up or runs a
+        # scenario which completes on the unchanged tree is the library failing on
+        # an input it must handle: a violation with the traceback as witness. An
+        # exception raised by the harness itself stays a checker error.
+        tb = traceback.extract_tb(e.__traceback__)
+        last = tb[-1] if tb else None
+        in_sc3 = last is not None and os.path.abspath(last.filename).startswith(
+            os.path.abspath(REPO) + os.sep)
+        if in_sc3:
+            site = '%s:%s' % (os.path.relpath(last.filename, REPO), last.name)
+            harness = [f for f in tb if '/vf/drivers/' in f.filename]
+            where = harness[-1].name if harness else '?'
+            rep.violation(
+                obligation='%s.completes' % prop,
+                what='%s raised %s: %s in %s while the driver ran %s (this scenario completes on the '
+                     'unchanged tree)' % (site, type(e).__name__, str(e)[:200], site, where),
+                input={'traceback': traceback.format_exc()[-1500:]},
+                key='%s.completes:%s:%s' % (prop, type(e).__name__, site))
+        else:
+            rep.error('driver crashed: ' + traceback.format_exc())
     if a.out:
         rep.dump(a.out)
     else:
